@@ -195,14 +195,14 @@ def make_descs(tier, seed, which):
     rng = random.Random(seed * 104729 + 1)
     idx = stdlib_index()
     if tier == "quick":
-        pick = rng.sample(range(len(idx)), 30)
+        pick = rng.sample(range(len(idx)), 20)
     else:
         pick = range(len(idx))
     descs = []
     for i in pick:
         rel, path = idx[i]
         descs.append({"src": "stdlib", "file": rel, "path": path})
-    ngen = 120 if tier == "quick" else 1500
+    ngen = 80 if tier == "quick" else 1500
     for k in range(ngen):
         descs.append({"src": "gen", "seed": seed * 1000003 + k, "size": 4 + (k % 9)})
     for d in descs:
